@@ -1,6 +1,15 @@
-"""P_iet -- include / exclude trees and what GroupBy groups by (property C15).
+"""P_iet -- include / exclude trees, what GroupBy groups by, SelectContext (property C15; GroupBy also C09).
 
-Sidecar contracts of lena/context/include_exclude_tree.py (IncludeExcludeTree.get ...).
+Sidecar contracts of
+  lena/context/include_exclude_tree.py  IncludeExcludeTree.get (replaces the assumed contract of P_acc.py), IncludeExcludeTree.__init__,
+                                        _split_key, _startswith, _group_by_starting_prefixes, make_include_exclude_tree
+                                        (the recursive core _make_include_exclude_tree is NOT proved: assumed deterministic,
+                                        inside the unit of make_include_exclude_tree only)
+  lena/flow/group_by.py                 GroupBy.__init__
+  lena/flow/selectors.py                SelectContext.__init__, SelectContext.__call__
+and Lemma units that tie the reference function of get to the partition the property states (section `sel and the
+partition of the property`).  Engine additions: pyvc/iet.py (trees / sets of strings), pyvc/lib_ctxcall.py (a user callable
+applied to a context value; exceptions of the classes handled around the call).
 
 Trees are values of the SMT datatype Tree (pyvc/iet.py): mkT(include, keys, subtrees).
 
@@ -67,11 +76,18 @@ def sp_sel(ip, st, pos, kws):
     """sel(t, d): the reference function (t: a tree value or a tree object)"""
     declare_sel(ip.reg)
     t, d = _tree(ip, st, pos[0]), dterm(ip, st, pos[1])
-    if not ip.bound_stack:
+    if not ip.bound_stack and not _has_bound_var(t.s + " " + d.s):
         ax = T(sel_def(t.s, d.s), "Bool")
         if not any(x.s == ax.s for x in st.pc):
             st.pc.append(ax)           # definition of the reference function at these arguments
     return Opaque(T("(sel %s %s)" % (t.s, d.s), "Val"))
+
+
+def _has_bound_var(text):
+    """does the term mention a variable bound by an enclosing quantifier of the clause (all_keys, all / any)?  Constants are
+    written |name!n| / |key:..|; bound variables are plain identifiers ending in digits (ak3, q12, lq4 ...)"""
+    import re
+    return re.search(r"(?<![A-Za-z0-9_])[a-z]+[0-9]+(?![A-Za-z0-9_])", re.sub(r"\|[^|]*\|", "", text)) is not None
 
 
 def sp_sel_item(ip, st, pos, kws):
@@ -105,6 +121,137 @@ def sp_iet_get(ip, st, pos, kws):
     return sp_sel(ip, st, [Ref(m.group(1)), pos[1]], kws)
 
 
+def sp_tree(ip, st, pos, kws):
+    """tree(x): the value (sort Tree) of a tree object / a tree value"""
+    return Opaque(_tree(ip, st, pos[0]))
+
+
+def _seq_items(ip, st, v):
+    """the strings of an argument that is one string or a tuple / list of concrete length of strings"""
+    from pyvc.sym import Str, Tup
+    from pyvc.interp import Unsupported
+    if isinstance(v, Str) or (isinstance(v, Opaque) and v.sort == "Key"):
+        return [v]
+    view = ip.as_view(st, v)
+    if view.items is None:
+        raise Unsupported("a string or a sequence of concrete length of strings expected")
+    return list(view.items)
+
+
+def sp_has_root(ip, st, pos, kws):
+    """has_root(x): the root -- the empty string -- is listed in x (one string, or a sequence of strings)"""
+    from pyvc.smt import OR, EQ
+    return Bool(OR(*[EQ(ip.key_term(k), ip.reg.key("")) for k in _seq_items(ip, st, pos[0])]))
+
+
+def sp_listed_paths(ip, st, pos, kws):
+    """listed_paths(x): the list of the key paths listed in x (one dotted string, or a sequence of dotted strings) other
+    than the root, each split at its dots, in the order given.  For n strings a case distinction over which of them are
+    the root (2**n alternatives, each a list display)"""
+    from pyvc.smt import EQ, ITE
+    reg = ip.reg
+    lk = reg.lst("Key")
+    ll = reg.lst(lk)
+    items = [ip.key_term(k) for k in _seq_items(ip, st, pos[0])]
+    f = reg.ufun("ksplit", ["Key"], lk)
+
+    def build(i, acc):
+        if i == len(items):
+            return acc
+        keep = reg.l_append(acc, T("(%s %s)" % (f, items[i].s), lk))
+        return ITE(EQ(items[i], reg.key("")), build(i + 1, acc), build(i + 1, keep))
+    return ip.lst_view(build(0, reg.l_empty_canonical(ll)))
+
+
+def sp_any_improper(ip, st, pos, kws):
+    """any_improper(x): some string listed in x other than the root has an empty subkey (`a..b`, `.a`)"""
+    from pyvc.smt import OR, AND, NOT, EQ
+    reg = ip.reg
+    lk = reg.lst("Key")
+    f = reg.ufun("ksplit", ["Key"], lk)
+    outs = []
+    for k in _seq_items(ip, st, pos[0]):
+        kt = ip.key_term(k)
+        sp = T("(%s %s)" % (f, kt.s), lk)
+        q = "iq%d" % next(ip.bound)
+        outs.append(AND(NOT(EQ(kt, reg.key(""))),
+                        T("(exists ((%s Int)) (and (<= 0 %s) (< %s %s) (= %s %s)))"
+                          % (q, q, q, reg.l_len(sp).s, reg.l_get(sp, T(q, "Int")).s, reg.key("").s), "Bool")))
+    return Bool(OR(*outs))
+
+
+def sp_iet_rejects(ip, st, pos, kws):
+    """iet_rejects(includes, excludes, default_include): _make_include_exclude_tree raises LenaValueError for these lists of
+    key paths (`Include/exclude keys should be strictly within exclude/include keys respectively`) -- an uninterpreted
+    predicate of the argument VALUES"""
+    from pyvc.speclib import lst_term
+    reg = ip.reg
+    ll = reg.lst(reg.lst("Key"))
+    f = reg.ufun("iet_rejects", [ll, ll, "Bool"], "Bool")
+    a, b = lst_term(ip, st, pos[0], ll), lst_term(ip, st, pos[1], ll)
+    return Bool(T("(%s %s %s %s)" % (f, a.s, b.s, ip.truth(st, pos[2]).s), "Bool"))
+
+
+def sp_iet_of(ip, st, pos, kws):
+    """iet_of(includes, excludes, default_include): the tree _make_include_exclude_tree returns for two lists of key paths
+    (lists of lists of strings) and the default -- an uninterpreted function of these VALUES (the function is assumed to
+    be deterministic; what the tree is, is not stated here)"""
+    from pyvc.iet import declare_tree
+    from pyvc.speclib import lst_term
+    reg = ip.reg
+    declare_tree(reg)
+    ll = reg.lst(reg.lst("Key"))
+    f = reg.ufun("iet_of", [ll, ll, "Bool"], "Tree")
+    a, b = lst_term(ip, st, pos[0], ll), lst_term(ip, st, pos[1], ll)
+    return Opaque(T("(%s %s %s %s)" % (f, a.s, b.s, ip.truth(st, pos[2]).s), "Tree"))
+
+
+def sp_no_groups(ip, st, pos, kws):
+    """no_groups(d): d is an empty dictionary (a new `dict()`, or a dict of lists without keys)"""
+    from pyvc.sym import Ref, PyDictCell, ValCell
+    from pyvc.smt import TRUE, FALSE, EQ
+    from pyvc.interp import Unsupported
+    v = pos[0]
+    if isinstance(v, Ref) and not v.path:
+        c = st.heap[v.cid]
+        if isinstance(c, PyDictCell):
+            return Bool(FALSE if c.items else TRUE)
+        if type(c).__name__ == "KeyMapCell":
+            return Bool(EQ(c.has, T("((as const (Array Key Bool)) false)", "(Array Key Bool)")))
+        if isinstance(c, ValCell):
+            return Bool(EQ(c.term, T("(D emptymap)", "Val")))
+    raise Unsupported("no_groups of %r" % (v,))
+
+
+def sp_key_components(ip, st, pos, kws):
+    """key_components(s): the components of a dotted key string as str_to_list / get_recursively see them ([] for the empty
+    string) -- the same list term as dot_components(s) of P_ctx.py, built without creating a list object (so that clauses
+    may use it under `and` / `implies`)"""
+    from pyvc.smt import ITE, EQ
+    from pyvc.sym import Str
+    reg = ip.reg
+    v = pos[0]
+    lk = reg.lst("Key")
+    kt = ip.key_term(v)
+    t = T("(%s %s)" % (reg.ufun("ksplit", ["Key"], lk), kt.s), lk)
+    if isinstance(v, Str):
+        return ip.lst_view(t) if v.s else ip.items_view([])
+    empty = T("(mk_%s %s 0)" % (lk, reg.l_arr(t).s), lk)
+    return ip.lst_view(ITE(EQ(kt, reg.key("")), empty, t))
+
+
+def sp_ctx_call(ip, st, pos, kws):
+    """ctx_call(p, x): what the user callable p returns for the context value x (pyvc/lib_ctxcall.py)"""
+    from pyvc.lib_ctxcall import terms
+    return Opaque(terms(ip, st, pos[0], pos[1])[1])
+
+
+def sp_ctx_call_raises(ip, st, pos, kws):
+    """ctx_call_raises(p, x): the user callable p raises (an exception of whatever class) for the context value x"""
+    from pyvc.lib_ctxcall import terms
+    return Bool(terms(ip, st, pos[0], pos[1])[2])
+
+
 def replace(ix, c):
     """register c under its key INSTEAD of whatever an earlier module registered there (an assumed contract)"""
     for lst in ix.by_simple.values():
@@ -117,8 +264,18 @@ def register(ix):
     ix.spec_names["sel_item"] = sp_sel_item
     ix.spec_names["sel_of_seen"] = sp_sel_of_seen
     ix.spec_names["iet_get"] = sp_iet_get
+    for n, f in [("tree", sp_tree), ("has_root", sp_has_root), ("listed_paths", sp_listed_paths), ("iet_of", sp_iet_of),
+                 ("any_improper", sp_any_improper), ("iet_rejects", sp_iet_rejects), ("no_groups", sp_no_groups),
+                 ("ctx_call", sp_ctx_call), ("ctx_call_raises", sp_ctx_call_raises), ("key_components", sp_key_components)]:
+        ix.spec_names[n] = f
     register_get(ix)
     register_init(ix)
+    register_helpers(ix)
+    register_make(ix)
+    register_groupby_init(ix)
+    register_select_context(ix)
+    register_partition_lemmas(ix)
+    register_gbsp(ix)
 
 
 def register_get(ix):
@@ -153,3 +310,418 @@ def register_init(ix):
         ensures=["self.keys == keys", "self.subtrees == subtrees", "self.include == include"],
         modifies=["self.keys", "self.subtrees", "self.include"],
         post_class="IncludeExcludeTree"))
+
+
+def register_helpers(ix):
+    KS = "split_dots(key)"
+    ix.add(Contract(
+        IE, "_split_key", props=["C15"],
+        params={"key": "Str"}, result="Lst[Key]",
+        # `Split key into subkeys separated by dots.  All subkeys must be proper, that is empty ones are not allowed ...
+        # Improper subkeys raise LenaValueError` (the empty string -- the root -- is its own single subkey)
+        raises={"LenaValueError": "any(%s[i] == '' for i in range(len(%s))) and key != ''" % (KS, KS)},
+        ensures=["key == '' implies len(result) == 1 and result[0] == ''",
+                 "key != '' implies same(result, %s)" % KS,
+                 "key != '' implies all(result[i] != '' for i in range(len(result)))"]))
+    ix.add(Contract(
+        IE, "_startswith", props=["C15"],
+        params={"s1": "Lst[Key]", "s2": "Lst[Key]"}, result="Bool",
+        # `Test whether a container s2 starts with s1`
+        raises={},
+        ensures=["result == (len(s1) <= len(s2) and all(s2[i] == s1[i] for i in range(len(s1))))"],
+        loops={0: LoopSpec(invariant=["len(s1) <= len(s2)", "all(s2[i] == s1[i] for i in range(_i))"])}))
+
+
+# ------------------------------------------------------------------------------------------ make_include_exclude_tree
+ARG_TYPES = [("str", "Str"), ("()", "Tuple[]"), ("(s,)", "Tuple[Str]"), ("(s, s)", "Tuple[Str,Str]")]
+LL = "Lst[Lst[Key]]"
+
+
+def assumed_make():
+    """the recursive core _make_include_exclude_tree is not under contract: its callers are verified against the
+    assumption that its result is a function of the VALUES of its arguments (iet_of) -- nothing is assumed about WHICH tree"""
+    return Contract(IE, "_make_include_exclude_tree", props=[], trusted=True,
+                    params={"includes": LL, "excludes": LL, "is_default_include": "Bool"},
+                    result="Inst[IncludeExcludeTree]",
+                    raises={"LenaValueError": "iet_rejects(includes, excludes, is_default_include)"},
+                    ensures=["tree(result) == iet_of(includes, excludes, is_default_include)"],
+                    notes="assumed: deterministic (the tree, and whether LenaValueError is raised instead, are functions of "
+                          "the two lists of key paths and the default)")
+
+
+def register_make(ix):
+    cases = []
+    for na, ta in ARG_TYPES:
+        for nb, tb in ARG_TYPES:
+            if (ta, tb) == ("Tuple[]", "Tuple[]"):
+                continue          # (no root at all: every path raises -- a unit without a normal exit)
+            cases.append(Contract(
+                IE, "make_include_exclude_tree", name="make_include_exclude_tree[includes=%s, excludes=%s]" % (na, nb),
+                params={"includes": ta, "excludes": tb}, result="Inst[IncludeExcludeTree]",
+                ghost={"assumed_callees": {"_make_include_exclude_tree": assumed_make()}},
+                # `The root (empty) string must be contained in exactly one of include or exclude sets` (else LenaValueError;
+                # improper subkeys and improperly nested keys raise it too: stated by _split_key / left to the core)
+                raises={"LenaValueError": "has_root(includes) == has_root(excludes) or any_improper(includes) "
+                                          "or any_improper(excludes) or iet_rejects(listed_paths(includes), "
+                                          "listed_paths(excludes), has_root(includes))"},
+                ensures=[
+                         # one string stands for the tuple of that string; the root is the default, the other keys are
+                         # split at their dots: the tree is the one the core builds from them
+                         "tree(result) == iet_of(listed_paths(includes), listed_paths(excludes), has_root(includes))"]))
+    ix.add(Contract(IE, "make_include_exclude_tree", props=["C15"], cases=cases))
+
+
+# ------------------------------------------------------------------------------------------------- GroupBy.__init__
+def register_groupby_init(ix):
+    """`group_by ... can be a tuple of strings ... An empty string represents the entire context.  The default arguments add
+    all values from the flow into one group (that is merge takes priority over group_by)`: the tree is the one built from
+    group_by (includes) and merge (excludes) as given -- except for the default arguments, which stand for group_by=(),
+    merge=("",).  `groups` starts empty.  Strings / tuples of strings never raise LenaTypeError."""
+    ix.add_class(ClassSpec("GroupBy0", GB, fields={}, alias_of="GroupBy"))
+    TREE = "tree(self._iet) == iet_of(listed_paths({g}), listed_paths({m}), has_root({g}))"
+    BAD = ("has_root({g}) == has_root({m}) or any_improper({g}) or any_improper({m}) or "
+           "iet_rejects(listed_paths({g}), listed_paths({m}), has_root({g}))")
+    cases = []
+    for na, ta in ARG_TYPES:
+        for nb, tb in ARG_TYPES:
+            if (ta, tb) == ("Tuple[]", "Tuple[]"):
+                continue
+            both = ta == "Str" and tb == "Str"
+            dflt = "(group_by == '' and merge == '')"
+            given = TREE.format(g="group_by", m="merge")
+            cases.append(Contract(
+                GB, "GroupBy.__init__", name="GroupBy.__init__[group_by=%s, merge=%s]" % (na, nb),
+                params={"self": "Self[GroupBy0]", "group_by": ta, "merge": tb}, defaults={"group_by": "", "merge": ""},
+                raises={"LenaValueError": ("(%s and (%s)) or (not %s and (%s))"
+                                           % (dflt, BAD.format(g="()", m="('',)"), dflt, BAD.format(g="group_by", m="merge"))) if both
+                        else BAD.format(g="group_by", m="merge")},
+                ensures=([dflt + " implies " + TREE.format(g="()", m="('',)"), "not " + dflt + " implies " + given]
+                         if both else [given]) + ["no_groups(self.groups)"],
+                modifies=["self._iet", "self.groups"], post_class="GroupBy"))
+    ix.add(Contract(GB, "GroupBy.__init__", props=["C15", "C09"], cases=cases))
+    # C09 `reset() equals a new element`: the state fill / compute depend on is `groups` (the tree is configuration, which
+    # reset does not touch: frame of GroupBy.reset in P_acc.py)
+    try:
+        from contracts.P_acc import reset_equals_new
+        ix.lemmas.append(Lemma(
+            "GroupBy: reset() leaves the groups as a newly constructed element has them", GB, ["C09"],
+            reset_equals_new("GroupBy", "reset", ["no_groups(self.groups)"]),
+            notes="over the contracts of GroupBy.reset (P_acc.py) and GroupBy.__init__ (default arguments); the tree is "
+                  "configuration"))
+    except ImportError:
+        pass
+
+
+# --------------------------------------------------------------------------------------------------- SelectContext
+SEL = "lena/flow/selectors.py"
+
+
+def register_select_context(ix):
+    """property C15: `SelectContext applies its predicate to the addressed sub-context and is False when that is absent`;
+    Selector docstring (raise_on_error): `whether in case of an exception the selector raises that exception or returns
+    False`.  The sub-context addressed by the key is walk(context, components of the key) (C08).  An exception raised BY
+    THE PREDICATE -- of whatever class, LenaKeyError included -- is an error of the predicate, not an absent sub-context."""
+    for name, kty, comps in (("SelectContext", "Str", "key_components(self._key)"), ("SelectContext_l", "Lst[Key]", "self._key")):
+        ix.add_class(ClassSpec(name, SEL, fields={"_key": kty, "_predicate": "Obj", "_raise_on_error": "Bool"},
+                               bases=["Selector"], **({} if name == "SelectContext" else {"alias_of": "SelectContext"})))
+        # (the list form goes through the case of get_recursively for dictionary OBJECTS, stated with walka: the same walk
+        # over the array of the key list, P_ctx.py)
+        SUB = "%s(vctx(value), %s, 0, len(%s))" % ("walk" if kty == "Str" else "walka", comps, comps)
+        RAISES = "ctx_call_raises(self._predicate, the(%s))" % SUB
+        ix.add(Contract(
+            SEL, "SelectContext.__call__", props=["C15"], name="SelectContext.__call__[key: %s]" % kty,
+            qualkey=None if name == "SelectContext" else "SelectContext_l.__call__",
+            params={"self": "Self[%s]" % name, "value": "V"}, result="Any",
+            raises={"Exception": "%s != absent() and %s and self._raise_on_error" % (SUB, RAISES)},
+            ensures=["%s == absent() implies result is False" % SUB,
+                     "%s != absent() and %s implies result is False" % (SUB, RAISES),
+                     "%s != absent() and not %s implies result is ctx_call(self._predicate, the(%s))" % (SUB, RAISES, SUB)],
+            notes="the value is an abstract flow value: its context is vctx(value) ({} for bare data); nothing is changed "
+                  "(frame: no `modifies`)"))
+    ix.add_class(ClassSpec("SelectContext0", SEL, fields={}, alias_of="SelectContext"))
+    cases = []
+    for kname, kty, post in (("string", "Str", "SelectContext"), ("list of keys", "Lst[Key]", "SelectContext_l")):
+        cases.append(Contract(
+            SEL, "SelectContext.__init__", name="SelectContext.__init__[key: %s]" % kname,
+            params={"self": "Self[SelectContext0]", "key": kty, "predicate": "Obj", "raise_on_error": "Bool"},
+            defaults={"raise_on_error": True},
+            # `assert callable(predicate)` (the comment there: the assertions are meant as the argument check)
+            raises={"AssertionError": "not callable(predicate)"},
+            ensures=["self._key == key" if kty == "Str" else "self._key is key", "self._predicate is predicate",
+                     "self._raise_on_error == raise_on_error"],
+            modifies=["self._key", "self._predicate", "self._raise_on_error"], post_class=post))
+    ix.add(Contract(SEL, "SelectContext.__init__", props=["C15"], cases=cases))
+
+
+# ------------------------------------------------------------------------------ sel and the partition of the property
+# property C15: `two values share a group exactly when their contexts agree on every key path whose longest prefix listed in
+# group_by or merge is a group_by entry`.  In terms of the tree:  selp(t, p)  = the key path p (non-empty) is SELECTED by t,
+#     selp(t, k.q) =  not t.include                       if k is in t.keys        (a listed key flips the default, for all below)
+#                     s.include  (q empty) / selp(s, q)   if t.subtrees[k] = s     (s.include: the status of the path k itself)
+#                     t.include                           otherwise                (the default of this level)
+# walkp(x, p) = the item of x at the path p (absent when a component is missing or the way runs through a scalar), and two
+# items AGREE (agree_o) when both are absent, both are dictionaries, or they are equal scalars.  With
+#     agreeT(t, d1, d2)  :=  for every non-empty path p: selp(t, p) implies agree_o(walkp(d1, p), walkp(d2, p))
+# the lemmas below give, for dictionaries d1, d2:      sel(t, d1) == sel(t, d2)   <=>   agreeT(t, d1, d2)
+# (`=>`: lemma A with T; `<=`: lemma C with E, K, H, B1).  Every lemma is an obligation over the DEFINITIONS of sel / selp /
+# walkp (unfolded at the terms used, as in P_ctx.py) and the induction hypothesis at the sub-tree / sub-dictionary under the
+# first key.  A universally quantified premise (agreeT, fullag) is an uninterpreted predicate in the unit that uses it; the
+# units use it only through INSTANCES at paths named in the unit, and establish it (for the induction hypothesis) through
+# the descent lemmas H / EH / K, each of which is proved for an arbitrary path.
+PATH_DECL = "(declare-datatypes ((Path 0)) (((pnil) (pcons (phd Key) (ptl Path)))))"
+AGREE_O = ("(define-fun agree_o ((a Opt) (b Opt)) Bool (ite (= a none) (= b none) (and (not (= b none)) "
+           "(ite (isD (the a)) (isD (the b)) (= (the a) (the b))))))")
+EMPTY = "(D emptymap)"
+
+
+def declare_partition(reg):
+    declare_sel(reg)
+    if "Path" not in reg.sorts:
+        reg.sorts.add("Path")
+        reg.sort_decls.append(PATH_DECL)
+    reg.ufun("walkp", ["Val", "Path"], "Opt")
+    reg.ufun("selp", ["Tree", "Path"], "Bool")
+    reg.ufun("agreeT", ["Tree", "Val", "Val"], "Bool")
+    reg.ufun("fullag", ["Val", "Val"], "Bool")
+    reg.ufun("somekey", ["(Array Key Opt)"], "Key")
+    reg.ufun("wit", ["Tree", "Val"], "Path")
+    reg.fun_decl("agree_o", AGREE_O)
+
+
+def walkp_unf(x, p):
+    return ("(= (walkp {x} {p}) (ite ((_ is pnil) {p}) (some {x}) (ite (and (isD {x}) (vhas {x} (phd {p}))) "
+            "(walkp (vget {x} (phd {p})) (ptl {p})) none)))").format(x=x, p=p)
+
+
+def sub(t, k):
+    return "(theT (select (t_subs %s) %s))" % (t, k)
+
+
+def selp_unf(t, p):
+    """definition of selp at (t, p) for a non-empty p"""
+    k = "(phd %s)" % p
+    return ("(=> (not ((_ is pnil) {p})) (= (selp {t} {p}) (ite (select (t_keys {t}) {k}) (not (t_incl {t})) "
+            "(ite ((_ is someT) (select (t_subs {t}) {k})) "
+            "(ite ((_ is pnil) (ptl {p})) (t_incl {s}) (selp {s} (ptl {p}))) (t_incl {t})))))").format(t=t, p=p, k=k, s=sub(t, k))
+
+
+def sel_at(t, d, k):
+    """the definition of sel(t, d) at the key k"""
+    return ("(=> (isD {d}) (and (isD (sel {t} {d})) (= (select (dm (sel {t} {d})) {k}) (sel_item {t} {d} {k}))))"
+            ).format(t=t, d=d, k=k)
+
+
+def sel_isd(t, d):
+    return "(=> (isD {d}) (isD (sel {t} {d})))".format(t=t, d=d)
+
+
+def agree_at(t, d1, d2, p):
+    """the instance of agreeT(t, d1, d2) at the path p"""
+    return ("(=> (agreeT {t} {d1} {d2}) (=> (and (not ((_ is pnil) {p})) (selp {t} {p})) "
+            "(agree_o (walkp {d1} {p}) (walkp {d2} {p}))))").format(t=t, d1=d1, d2=d2, p=p)
+
+
+def fullag_at(x, y, p):
+    return "(=> (fullag {x} {y}) (agree_o (walkp {x} {p}) (walkp {y} {p})))".format(x=x, y=y, p=p)
+
+
+def t_stmt(s, e, p):
+    """T: a selected path that is present in e leaves a trace in sel(s, e)"""
+    return ("(=> (and (isD {e}) (not ((_ is pnil) {p})) (selp {s} {p}) (not (= (walkp {e} {p}) none))) "
+            "(not (= (sel {s} {e}) %s)))" % EMPTY).format(s=s, e=e, p=p)
+
+
+def a_stmt(t, d1, d2, p):
+    return ("(=> (and (isD {d1}) (isD {d2}) (= (sel {t} {d1}) (sel {t} {d2})) (not ((_ is pnil) {p})) (selp {t} {p})) "
+            "(agree_o (walkp {d1} {p}) (walkp {d2} {p})))").format(t=t, d1=d1, d2=d2, p=p)
+
+
+def b1_stmt(s, e):
+    w = "(wit %s %s)" % (s, e)
+    return ("(=> (and (isD {e}) (not (= (sel {s} {e}) %s))) (and (not ((_ is pnil) {w})) (selp {s} {w}) "
+            "(not (= (walkp {e} {w}) none))))" % EMPTY).format(s=s, e=e, w=w)
+
+
+def fully_selected(t, k):
+    return ("(or (and (select (t_keys {t}) {k}) (not (t_incl {t}))) (and (not (select (t_keys {t}) {k})) "
+            "(not ((_ is someT) (select (t_subs {t}) {k}))) (t_incl {t})))").format(t=t, k=k)
+
+
+def _unit(name, consts, hyps, goal):
+    def build(ip, st):
+        from pyvc.interp import VC
+        from pyvc.smt import FALSE
+        reg = ip.reg
+        declare_partition(reg)
+        names = {}
+        for c, sort in consts:
+            names[c] = reg.new(c, sort).s
+        for h in hyps:
+            st.assume(T(h.format(**names), "Bool"))
+        ip.emit("lemma", name, st, T(goal.format(**names), "Bool"))
+        ip.vcs.append(VC("cover requires", "cover", list(st.pc), FALSE, ""))
+        ip.vcs.append(VC("canary ensures False#0", "canary", list(st.pc), FALSE, ""))
+    return build
+
+
+def register_partition_lemmas(ix):
+    def add(name, consts, hyps, goal, notes):
+        ix.lemmas.append(Lemma("sel / partition: " + name, IE, ["C15"], _unit(name, consts, hyps, goal), notes=notes))
+    K, Q = "(phd {p})", "(ptl {p})"
+    S1 = sub("{s}", K)
+    E1 = "(vget {e} %s)" % K
+    # ---- T
+    add("T  a selected path present in e leaves a trace: sel(s, e) != {{}}",
+        [("s", "Tree"), ("e", "Val"), ("p", "Path")],
+        [sel_at("{s}", "{e}", K), walkp_unf("{e}", "{p}"), selp_unf("{s}", "{p}"), walkp_unf(E1, Q), sel_isd(S1, E1),
+         t_stmt(S1, E1, Q)],
+        t_stmt("{s}", "{e}", "{p}"),
+        "induction on the path; hypothesis = the statement for the sub-tree and the sub-dictionary under the first key")
+    # ---- A
+    SA = sub("{t}", K)
+    D1, D2 = "(vget {d1} %s)" % K, "(vget {d2} %s)" % K
+    add("A  equal selections agree on every selected path (same group => the contexts agree)",
+        [("t", "Tree"), ("d1", "Val"), ("d2", "Val"), ("p", "Path")],
+        [sel_at("{t}", "{d1}", K), sel_at("{t}", "{d2}", K), walkp_unf("{d1}", "{p}"), walkp_unf("{d2}", "{p}"),
+         selp_unf("{t}", "{p}"), walkp_unf(D1, Q), walkp_unf(D2, Q), sel_isd(SA, D1), sel_isd(SA, D2),
+         a_stmt(SA, D1, D2, Q), t_stmt(SA, D1, Q), t_stmt(SA, D2, Q)],
+        a_stmt("{t}", "{d1}", "{d2}", "{p}"),
+        "induction on the path; uses lemma T at the sub-tree (a dictionary facing a scalar / nothing under an unselected key)")
+    # ---- EH, E
+    PK = "(pcons {k} {q})"
+    add("EH  full agreement descends to the items under a common key",
+        [("x", "Val"), ("y", "Val"), ("k", "Key"), ("q", "Path")],
+        [fullag_at("{x}", "{y}", PK), walkp_unf("{x}", PK), walkp_unf("{y}", PK)],
+        "(=> (and (fullag {x} {y}) (isD {x}) (isD {y}) (vhas {x} {k}) (vhas {y} {k})) "
+        "(agree_o (walkp (vget {x} {k}) {q}) (walkp (vget {y} {k}) {q})))",
+        "for an arbitrary path q: the instance of fullag(x, y) at k.q")
+    P1 = "(pcons {k} pnil)"
+    XK, YK = "(vget {x} {k})", "(vget {y} {k})"
+    add("E  values that agree at every path are equal (item by item)",
+        [("x", "Val"), ("y", "Val"), ("k", "Key")],
+        [fullag_at("{x}", "{y}", "pnil"), walkp_unf("{x}", "pnil"), walkp_unf("{y}", "pnil"),
+         fullag_at("{x}", "{y}", P1), walkp_unf("{x}", P1), walkp_unf("{y}", P1), walkp_unf(XK, "pnil"), walkp_unf(YK, "pnil"),
+         # EH (proved above for every q), and the induction hypothesis at the items under k
+         "(=> (and (fullag {x} {y}) (isD {x}) (isD {y}) (vhas {x} {k}) (vhas {y} {k})) (fullag %s %s))" % (XK, YK),
+         "(=> (fullag %s %s) (= %s %s))" % (XK, YK, XK, YK)],
+        "(=> (fullag {x} {y}) (and (= (isD {x}) (isD {y})) (=> (not (isD {x})) (= {x} {y})) "
+        "(=> (isD {x}) (= (select (dm {x}) {k}) (select (dm {y}) {k})))))",
+        "structural induction on x; for an arbitrary key k")
+    add("E2  ... hence equal",
+        [("x", "Val"), ("y", "Val")],
+        ["(= (isD {x}) (isD {y}))", "(=> (not (isD {x})) (= {x} {y}))",
+         "(=> (isD {x}) (forall ((k Key)) (! (= (select (dm {x}) k) (select (dm {y}) k)) :pattern ((select (dm {x}) k)))))"],
+        "(= {x} {y})", "extensionality of dictionaries (conclusion of E for every key)")
+    # ---- K, H
+    PKQ = "(pcons {k} {q})"
+    add("K  under a key whose whole sub-tree of paths is selected, agreement is full agreement",
+        [("t", "Tree"), ("d1", "Val"), ("d2", "Val"), ("k", "Key"), ("q", "Path")],
+        [agree_at("{t}", "{d1}", "{d2}", PKQ), selp_unf("{t}", PKQ), walkp_unf("{d1}", PKQ), walkp_unf("{d2}", PKQ),
+         # (selp at k.q for a key of t.keys / a key without sub-tree does not depend on q: by the definition above)
+         ],
+        "(=> (and (agreeT {t} {d1} {d2}) (isD {d1}) (isD {d2}) (vhas {d1} {k}) (vhas {d2} {k}) %s) "
+        "(agree_o (walkp (vget {d1} {k}) {q}) (walkp (vget {d2} {k}) {q})))" % fully_selected("{t}", "{k}"),
+        "for an arbitrary path q: the instance of agreeT at k.q")
+    add("H  agreement descends to the sub-tree under a key",
+        [("t", "Tree"), ("d1", "Val"), ("d2", "Val"), ("k", "Key"), ("q", "Path")],
+        [agree_at("{t}", "{d1}", "{d2}", PKQ), selp_unf("{t}", PKQ), walkp_unf("{d1}", PKQ), walkp_unf("{d2}", PKQ)],
+        "(=> (and (agreeT {t} {d1} {d2}) (isD {d1}) (isD {d2}) (vhas {d1} {k}) (vhas {d2} {k}) "
+        "(not (select (t_keys {t}) {k})) ((_ is someT) (select (t_subs {t}) {k})) (not ((_ is pnil) {q})) (selp %s {q})) "
+        "(agree_o (walkp (vget {d1} {k}) {q}) (walkp (vget {d2} {k}) {q})))" % sub("{t}", "{k}"),
+        "for an arbitrary non-empty path q: the instance of agreeT at k.q")
+    # ---- B1
+    KW = "(somekey (dm (sel {s} {e})))"
+    SW = sub("{s}", KW)
+    EW = "(vget {e} %s)" % KW
+    W = "(wit {s} {e})"
+    add("B1  a non-empty selection has a selected path that is present (witness)",
+        [("s", "Tree"), ("e", "Val")],
+        [sel_at("{s}", "{e}", KW),
+         # choice: a non-empty map has a key
+         "(=> (not (= (dm (sel {{s}} {{e}})) emptymap)) (not (= (select (dm (sel {{s}} {{e}})) {k}) none)))".format(k=KW),
+         # definition of the witness path: the key, extended by the witness of the sub-tree when the key itself is unselected
+         ("(= {w} (ite (and (not (select (t_keys {{s}}) {k})) ((_ is someT) (select (t_subs {{s}}) {k})) (not (t_incl {s1})) "
+          "(isD {e1})) (pcons {k} (wit {s1} {e1})) (pcons {k} pnil)))").format(w=W, k=KW, s1=SW, e1=EW),
+         selp_unf("{s}", W), walkp_unf("{e}", W), walkp_unf(EW, "pnil"), sel_isd(SW, EW), b1_stmt(SW, EW)],
+        b1_stmt("{s}", "{e}"),
+        "structural induction on the tree; somekey: a key of a non-empty map (choice), wit: defined by recursion on the tree")
+    # ---- C
+    SC = sub("{t}", "{k}")
+    C1, C2 = "(vget {d1} {k})", "(vget {d2} {k})"
+    PK1 = "(pcons {k} pnil)"
+    W1, W2 = "(pcons {k} (wit %s %s))" % (SC, C1), "(pcons {k} (wit %s %s))" % (SC, C2)
+    hyps_c = [sel_at("{t}", "{d1}", "{k}"), sel_at("{t}", "{d2}", "{k}"), sel_isd(SC, C1), sel_isd(SC, C2)]
+    for P in (PK1, W1, W2):
+        hyps_c += [agree_at("{t}", "{d1}", "{d2}", P), selp_unf("{t}", P), walkp_unf("{d1}", P), walkp_unf("{d2}", P)]
+    hyps_c += [walkp_unf(C1, "pnil"), walkp_unf(C2, "pnil"),
+               walkp_unf(C1, "(wit %s %s)" % (SC, C2)), walkp_unf(C2, "(wit %s %s)" % (SC, C1)),
+               # K + E: full agreement under a fully selected key, hence equal items
+               "(=> (and (agreeT {t} {d1} {d2}) (isD {d1}) (isD {d2}) (vhas {d1} {k}) (vhas {d2} {k}) %s) (fullag %s %s))"
+               % (fully_selected("{t}", "{k}"), C1, C2),
+               "(=> (fullag %s %s) (= %s %s))" % (C1, C2, C1, C2),
+               # H + induction hypothesis at the sub-tree
+               "(=> (and (agreeT {t} {d1} {d2}) (isD {d1}) (isD {d2}) (vhas {d1} {k}) (vhas {d2} {k}) "
+               "(not (select (t_keys {t}) {k})) ((_ is someT) (select (t_subs {t}) {k}))) (agreeT %s %s %s))" % (SC, C1, C2),
+               "(=> (and (isD %s) (isD %s) (agreeT %s %s %s)) (= (sel %s %s) (sel %s %s)))" % (C1, C2, SC, C1, C2, SC, C1, SC, C2),
+               b1_stmt(SC, C1), b1_stmt(SC, C2)]
+    add("C  contexts that agree on every selected path have equal selections (item by item)",
+        [("t", "Tree"), ("d1", "Val"), ("d2", "Val"), ("k", "Key")],
+        hyps_c,
+        "(=> (and (isD {d1}) (isD {d2}) (agreeT {t} {d1} {d2})) "
+        "(= (select (dm (sel {t} {d1})) {k}) (select (dm (sel {t} {d2})) {k})))",
+        "structural induction on the tree, for an arbitrary key k; uses K, E (fully selected keys), H (descent), B1 (a "
+        "dictionary facing a scalar / nothing under an unselected key has an empty selection)")
+    add("C2  ... hence the selections are equal (the contexts agree => same group)",
+        [("t", "Tree"), ("d1", "Val"), ("d2", "Val")],
+        ["(isD (sel {t} {d1}))", "(isD (sel {t} {d2}))",
+         "(forall ((k Key)) (! (= (select (dm (sel {t} {d1})) k) (select (dm (sel {t} {d2})) k)) "
+         ":pattern ((select (dm (sel {t} {d1})) k))))"],
+        "(= (sel {t} {d1}) (sel {t} {d2}))", "extensionality of dictionaries (conclusion of C for every key)")
+
+
+# --------------------------------------------------------------------------------------- _group_by_starting_prefixes
+def declare_tails(reg):
+    """tails_of(keys, k, n): the tails of those of the first n key tuples whose first element is k, in their order"""
+    lk = reg.lst("Key")
+    ll = reg.lst(lk)
+    empty = reg.l_empty_canonical(ll).s
+    item = "(select (arr_{ll} ks) (- n 1))".format(ll=ll)
+    tail = "(mk_{lk} (lambda ((si Int)) (select (arr_{lk} {item}) (+ si 1))) (- (len_{lk} {item}) 1))".format(lk=lk, item=item)
+    rec = "(tails_of ks k (- n 1))"
+    app = "(mk_{ll} (store (arr_{ll} {rec}) (len_{ll} {rec}) {tail}) (+ (len_{ll} {rec}) 1))".format(ll=ll, rec=rec, tail=tail)
+    # (an uninterpreted symbol with its defining equation as a patterned axiom: z3 rejects the define-fun-rec form of this
+    # definition -- "Sorts Bool and Lst_Lst_Key are incompatible" -- when it meets quantified hypotheses)
+    reg.ufun("tails_of", [ll, "Key", "Int"], ll)
+    ax = T("(forall ((ks {ll}) (k Key) (n Int)) (! (= (tails_of ks k n) (ite (<= n 0) {empty} "
+           "(ite (= (select (arr_{lk} {item}) 0) k) {app} {rec}))) :pattern ((tails_of ks k n))))".format(
+               ll=ll, lk=lk, empty=empty, item=item, app=app, rec=rec), "Bool")
+    if not any(a.s == ax.s for a in reg.axioms):
+        reg.axioms.append(ax)
+    return ll
+
+
+def sp_tails_of(ip, st, pos, kws):
+    from pyvc.speclib import lst_term
+    ll = declare_tails(ip.reg)
+    ks = lst_term(ip, st, pos[0], ll)
+    return ip.lst_view(T("(tails_of %s %s %s)" % (ks.s, ip.key_term(pos[1]).s, ip.num(pos[2]).s), ll))
+
+
+def register_gbsp(ix):
+    """`Group keys by common starting prefixes ... The starting prefix is the first element of the key tuple, while the rest is
+    its tail.  Returns a dictionary of key prefixes to lists of tails of keys with those starting prefixes`: the keys of the
+    result are the first elements that occur, and under each the tails of ALL the key tuples starting with it (wherever
+    they stand in the list), in their order."""
+    ix.spec_names["tails_of"] = sp_tails_of
+    ix.add(Contract(
+        IE, "_group_by_starting_prefixes", props=["C15"],
+        params={"keys": LL}, result="KeyMap[Lst[Key]]",
+        requires=["all(len(keys[i]) > 0 for i in range(len(keys)))"],      # (`every key returned by _split_key is non-empty`)
+        raises={},
+        ensures=["all_keys(lambda k: has_group(result, k) == any(keys[i][0] == k for i in range(len(keys))))",
+                 "all_keys(lambda k: same(group(result, k), tails_of(keys, k, len(keys))))",
+                 "keys == old(keys)"],
+        local_types={"gbsp": "KeyMap[Lst[Key]]"},
+        loops={0: LoopSpec(invariant=[
+            "all_keys(lambda k: has_group(gbsp, k) == (k in start_prefixes))",
+            "all_keys(lambda k: same(group(gbsp, k), tails_of(keys, k, _i)))"])}))
